@@ -241,6 +241,25 @@ func runFamily(name string) mon.Result {
 		}
 		obs["host_name_spellings"]++
 		obs["family_prompts_checked"] += int64(len(f.Tmpl))
+		// the same prompts as devices print them: with 0, 1, 2 trailing blanks, wherever the level's own
+		// pattern accepts the spelling; the joined pattern must find the prompt there as well
+		for n := 0; n <= 2; n++ {
+			base := familyPrompts(name, h, "", 0)
+			sp := blankSpellings(ld.eff, base, n)
+			diff := map[string]string{}
+			for k, p := range sp {
+				if p != base[k] {
+					diff[k] = p
+				}
+			}
+			if len(diff) == 0 {
+				continue
+			}
+			if v := checkFamilyPrompts(name, ld.d.PrivilegeLevels, joined, diff, fmt.Sprintf("host name %q, %d trailing blank(s)", h, n)); v != nil {
+				return *v
+			}
+			obs["trailing_blank_spellings"] += int64(len(diff))
+		}
 		for _, al := range altLevels(name) {
 			for i := range f.Alt[al] {
 				pr := familyPrompts(name, h, al, i+1)
@@ -254,4 +273,26 @@ func runFamily(name string) mon.Result {
 	}
 	return mon.Result{Verdict: mon.Held, NonTrivial: true, Obs: obs, Tags: []string{"family=" + name},
 		Sample: map[string]interface{}{"platform": name, "hosts": f.Hosts, "alternative_spellings": f.Alt}}
+}
+
+// blankSpellings returns the prompt table with every prompt carrying n trailing blanks wherever
+// the level's own pattern (and not-contains) accepts that spelling; other prompts stay as they are.
+func blankSpellings(eff *refPlatform, prompts map[string]string, n int) map[string]string {
+	out := map[string]string{}
+	for k, p := range prompts {
+		out[k] = p
+		l, ok := eff.Levels[k]
+		if !ok {
+			continue
+		}
+		re, err := regexp.Compile(l.Pattern)
+		if err != nil {
+			continue
+		}
+		sp := strings.TrimRight(p, " ") + strings.Repeat(" ", n)
+		if accepts(l, re, sp) {
+			out[k] = sp
+		}
+	}
+	return out
 }
